@@ -195,3 +195,24 @@ Lemma hdr_fits_canon o roots : roots_ok roots ->
 Proof. intros Hr H1 H2. split; [apply hdr_good_canon; exact Hr|]. split; assumption. Qed.
 Lemma pragma_good_canon o : 10 <= g_maxh o -> pragma_good dec_header_canon o.
 Proof. intros H. split; [exists []; apply dec_header_pragma|exact H]. Qed.
+
+(* C11 (6) with the regenerated side spelled out: the session's insertion index holds the records of
+   the sections it wrote (in write order); regenerating = LoadIndex over the finished payload *)
+Theorem flatten_vs_regenerated_payload (srt srt' : list irec -> list irec) hdrdec k o roots bs codec i0 :
+  sort_contract srt -> sort_contract srt' ->
+  hdr_fits hdrdec o roots -> Forall gblock_ok bs -> Forall (cid_fits o) bs ->
+  blen (enc_payload roots bs) < two63 -> idx_new codec = Some i0 ->
+  exists fi recs,
+    ii_flatten_with srt codec (ii_load (section_recs o (hlen_of roots) bs) []) = Some fi /\
+    load_index hdrdec k o (enc_payload roots bs) = Ok recs /\
+    idx_canon fi = idx_canon (idx_load_with srt' recs i0) /\
+    (NoDup (map (rec_key codec) recs) -> fi = idx_load_with srt' recs i0).
+Proof.
+  intros H1 H2 Hh Hok Hfit Hall Hnew.
+  destruct (flatten_canon_regen srt srt' H1 H2 codec i0 (section_recs o (hlen_of roots) bs) Hnew
+              (section_recs_ok o roots bs Hok Hall)) as (fi & Ef & Ec).
+  exists fi, (section_recs o (hlen_of roots) bs). split; [exact Ef|].
+  split; [apply load_index_v1; assumption|]. split; [exact Ec|].
+  intros Hn. pose proof (flatten_eq_regen_noties srt srt' H1 H2 codec i0 _ Hnew Hn) as E.
+  rewrite Ef in E. inversion E. reflexivity.
+Qed.
